@@ -290,6 +290,14 @@ func runC02(c *Ctx) {
 		})
 	}
 
+	// ---------------------------------------------------------------- R5
+	c.rule("R5", "a registered waiter is never overwritten: inserts happen only on the absent edge of a same-key lookup", 1)
+	{
+		lf := p.newLockFacts()
+		lf.analyseScope(fns)
+		checkWaiterInsertAbsent(c, lf)
+	}
+
 	// ---------------------------------------------------------------- R4
 	c.rule("R4", "the pipelined reader re-arms the idle read deadline before every read", 1)
 	for _, f := range fns {
